@@ -86,9 +86,21 @@ def getitem(I, d, key, node=None):
     I.throw("KeyError", key, node=node)
 
 
+_WRITTEN = object()  # origin of an entry that was written without being read first
+
+
 def setitem(I, d, key, value, node=None):
-    e = lookup(I, d, key, node)
-    e[1], e[2] = value, True
+    """d[key] = value does not depend on whether the key was there before: no case split on
+    the untouched base (which merely loses the key if it had it)"""
+    for e in d.overlay:
+        if _dec(I, lib.eq(I, key, e[0], node)):
+            e[1], e[2] = value, True
+            return
+    if d.base_alive:
+        inbase = d.base_dom(enc_key(I, key))
+        I.ctx.assume(z3.Implies(inbase, zint(d.m) >= 1))
+        d.m = as_const(ropes.zsub(d.m, z3.If(inbase, z3.IntVal(1), z3.IntVal(0))))
+    d.overlay.append([key, value, True, _WRITTEN, _WRITTEN])
 
 
 def delitem(I, d, key, node=None):
